@@ -11,7 +11,7 @@ for f in os.listdir(src):
     if f == "NOTES.md":
         shutil.copy(os.path.join(src, f), os.path.join(d, "AUTHOR_NOTES.md"))
 meta = {"id": sid, "property": prop, "summary": summary, "needs_to_manifest": needs,
-        "demonstration": {"file": "seed_demo.rs", "run": democmd, "placement": "copy to <clap worktree>/tests/seed_demo.rs"},
+        "demonstration": {"file": "seed_demo.rs", "run": democmd, "placement": "copy to <clap worktree>/" + os.environ.get("DEMO_DIR", "tests") + "/seed_demo.rs"},
         "verified": {"how": "/verif/verify_seed.sh in a scratch worktree of /repo HEAD (removed afterwards)",
                      "demo_unpatched": "pass", "demo_patched": "fail", "baseline_patched": "1346 passed"},
         "origin": "written by an independent sub-agent that saw only the property text and its own scratch worktree"}
